@@ -2,6 +2,7 @@
 #define GENERIC_INSTANTIATION_H
 
 #include "../../../../common/ast.h"
+#include <functional>
 #include <map>
 #include <memory>
 #include <string>
@@ -38,6 +39,11 @@ std::unique_ptr<ASTNode> clone_ast_node(const ASTNode *node);
 void substitute_type_parameters(
     ASTNode *node, const std::map<std::string, std::string> &type_map);
 
+// "Option" のような名前がジェネリックenumかどうかの問い合わせ（インタプリタが提供）
+// 正規化された型名 "Option_T" を、単に '_' を含むだけのユーザー定義型名
+// （"_N", "Node_T" など）と区別するために使う。省略時は名前の形だけで判断する
+using GenericEnumPredicate = std::function<bool(const std::string &)>;
+
 // ジェネリック関数をインスタンス化
 // func: ジェネリック関数のASTノード
 // type_arguments: 型引数リスト ["int", "string"]
@@ -53,14 +59,16 @@ void substitute_type_parameters(
 //     -> identity<int>(int x) にtype_nameとtype_infoが更新される
 std::unique_ptr<ASTNode>
 instantiate_generic_function(const ASTNode *func,
-                             const std::vector<std::string> &type_arguments);
+                             const std::vector<std::string> &type_arguments,
+                             const GenericEnumPredicate &is_generic_enum = {});
 
 // ジェネリックimplブロックのメソッドをインスタンス化
 // method: impl Holder<T> for Box<T> { ... } 内のメソッドのASTノード
 // type_map: {"T" -> "long"} のような型パラメータ → 型引数のマッピング
 // 戻り値: 型パラメータを置換したメソッドの複製（所有権は呼び出し側）
 std::unique_ptr<ASTNode> instantiate_generic_impl_method(
-    const ASTNode *method, const std::map<std::string, std::string> &type_map);
+    const ASTNode *method, const std::map<std::string, std::string> &type_map,
+    const GenericEnumPredicate &is_generic_enum = {});
 
 // v0.11.0: インスタンス化キャッシュ（パフォーマンス最適化）
 // キャッシュキーを生成: "function_name<type1,type2,...>"
